@@ -91,7 +91,7 @@ def make_case(
 
 
 def budget(tier: str) -> Dict[str, Any]:
-    return {"shards": 16, "examples": 500 if tier == "quick" else 10000, "examples2": 10 if tier == "quick" else 150}
+    return {"shards": 16, "examples": 500 if tier == "quick" else 10000, "examples2": 14 if tier == "quick" else 200}
 
 
 @st.composite
@@ -197,7 +197,7 @@ def long_short_violations(out: Outcome, txs: List[model.Tx], fractions: List[Dic
         out.classes.add("mixed_long_and_short")
 
 
-E2E_HIST = gen.GenCfg(min_steps=4, max_steps=14, max_exchanges=2, max_holders=2, long_gaps=True, bulk_prob=0.02)
+E2E_HIST = gen.GenCfg(min_steps=4, max_steps=14, max_exchanges=2, max_holders=2, long_gaps=True, bulk_prob=0.02, ops=("in", "in", "in", "out", "out", "out", "intra"))
 
 
 def strategy2(tier: str) -> Any:
